@@ -129,6 +129,7 @@ def options_reads(ix, R, f, O) -> list[tuple[str, ast.AST, str]]:
 def run(chk: Check) -> None:
     ix = get_index()
     run_dep_import_options(chk, ix)
+    run_option_writers(chk, ix, Resolver(ix))
     R = Resolver(ix)
     chk.trusted += ["receiver typing by annotations (sa/resolve.py)", "RTA call graph with name-based fallback (sa/callgraph.py)"]
     mopt = ix.module("mypy.options")
@@ -442,3 +443,63 @@ def run_dep_import_options(chk: Check, ix) -> None:
         r5.ok(key, sdo.loc(), f"{len(stores)} store sites")
     else:
         r5.violation(key, (bad[0][0].loc(bad[0][1]) if bad else sdo.loc()), "the recorded import options of suppressed dependencies no longer come from Options.dep_import_options")
+
+
+CLONE_MACHINERY = {"_per_module_cache", "_glob_options", "_unused_configs"}
+
+OPTION_WRITERS = {
+    "mypy.options": "the Options class itself",
+    "mypy.main": "command-line processing, before the build starts",
+    "mypy.config_parser": "config-file processing, before the build starts",
+    "mypy.dmypy_server": "daemon start-up adjustments in Server.__init__, before the first build",
+    "mypy.stubgen": "separate tool building its own Options",
+    "mypy.stubtest": "separate tool building its own Options",
+    "mypy.inspections": "export_types toggled around a daemon inspection (not read by the cached computation; keyed as PER_MODULE? no: exempted in R09.1 as daemon-only)",
+    "mypy.suggestions": "export_types toggled around a daemon suggestion",
+}
+
+
+def run_option_writers(chk: Check, ix, R) -> None:
+    """R09.6: nothing inside the build writes attributes of Options objects."""
+    r6 = chk.rule("R09.6", "attributes of Options objects are assigned only by the option-processing layer (options.py, main.py, config_parser.py, daemon start-up, the separate tools): per-module Options objects are shared between modules and copied wholesale by apply_changes, so a value written (or memoised) on one from inside the build leaks into other modules and into clones made later, and with it into or out of the cache key", floor=100)
+    n_build = 0
+    for q, f in sorted(ix.functions.items()):
+        mn = f.module.name
+        if f.parent is not None or not mn.startswith("mypy.") or ".test" in mn:
+            continue
+        env = None
+        for n in ast.walk(f.node):
+            tg = []
+            if isinstance(n, ast.Assign):
+                tg = n.targets
+            elif isinstance(n, (ast.AugAssign, ast.AnnAssign)):
+                tg = [n.target]
+            for t in tg:
+                if not isinstance(t, ast.Attribute):
+                    continue
+                if env is None:
+                    env = R.env(f)
+                ty = R.type_of(t.value, f, env)
+                if not any(x[0] == "cls" and x[1] == OPTIONS for x in members(ty)):
+                    continue
+                key = f"{q}: {norm(t)} = ..."
+                if mn in OPTION_WRITERS:
+                    r6.ok(key, f.loc(n), OPTION_WRITERS[mn])
+                else:
+                    n_build += 1
+                    r6.violation(key, f.loc(n), f"`{norm(t)}` is assigned on an Options object from {mn}, inside the build: Options.apply_changes copies every attribute of the parent into per-module clones and clones are shared between modules, so the value is seen by (or inherited into) modules it was not computed for — e.g. a memoised cache-key digest of the parent options then stands for a module whose section changes options")
+
+    # private (derived / memo) state on Options must not survive apply_changes
+    oc = ix.cls(OPTIONS)
+    init = oc.methods["__init__"]
+    ac = oc.methods["apply_changes"]
+    reset = {t.attr for a in ast.walk(ac.node) if isinstance(a, (ast.Assign, ast.AnnAssign)) for t in (a.targets if isinstance(a, ast.Assign) else [a.target]) if isinstance(t, ast.Attribute) and isinstance(t.value, ast.Name) and t.value.id != "self"}
+    priv = sorted({t.attr for a in ast.walk(init.node) if isinstance(a, (ast.Assign, ast.AnnAssign)) for t in (a.targets if isinstance(a, ast.Assign) else [a.target]) if isinstance(t, ast.Attribute) and norm(t.value) == "self" and t.attr.startswith("_")})
+    for a in priv:
+        key = f"Options.{a}: private state does not leak into per-module clones"
+        if a in CLONE_MACHINERY:
+            r6.ok(key, init.loc(), "clone-cache machinery of the top-level object; clones never call clone_for_module")
+        elif a in reset:
+            r6.ok(key, ac.loc(), "re-initialised by apply_changes")
+        else:
+            r6.violation(key, init.loc(), f"`{a}` is private derived state of an Options object; apply_changes copies every attribute of the parent (replace_object_state) and does not reset it, so a clone whose section changes options still carries the parent's value")
